@@ -227,8 +227,11 @@ func loopClass(fn *ssa.Function) (set [256]bool, err string) {
 						isParam = true
 					}
 				}
-				if bt, ok := ld.Type().Underlying().(*types.Basic); ok && bt.Kind() == types.Uint8 && isParam && load == nil {
-					load, scc = ld, comp
+				if bt, ok := ld.Type().Underlying().(*types.Basic); ok && bt.Kind() == types.Uint8 && isParam {
+					// the first read of the iteration: the one whose block dominates the others
+					if load == nil || (b != load.Block() && b.Dominates(load.Block())) {
+						load, scc = ld, comp
+					}
 				}
 			}
 		}
